@@ -74,11 +74,20 @@ class MotorPWM:
         self.sets += 1
 
 
-class PTStandIn:
+def _powertrain_base():
+    import gearpy.powertrain as PT
+    return PT.Powertrain
+
+
+class PTStandIn(_powertrain_base()):
+    """a Powertrain holding just a motor (real subclass: the constructors under contract test isinstance)"""
     _pycv_instance_of = ("Powertrain",)
 
-    def __init__(self, motor):
-        self.elements = (motor,)
+    def __init__(self, motor=None, **kw):
+        self.__dict__["_kw"] = dict(kw, elements=kw.get("elements", (motor,)))
+
+    elements = property(lambda self: self._kw["elements"])
+    time = property(lambda self: self._kw["time"])
 
 
 class AbsRule:
@@ -205,6 +214,17 @@ def construct(O, cls, props, *a, **kw):
     return r
 
 
+def _register_stand_ins():
+    """native replay (unpatched process): the real constructors use the real isinstance, so the stand-ins are registered
+    as virtual subclasses of the library's abstract base classes (Powertrain is a plain class: real subclasses below)"""
+    import gearpy.mechanical_objects as MO
+    from gearpy.motor_control.rules.rules_base import RuleBase
+    for base in (MO.RotatingObject, MO.MotorBase, MO.DCMotor):
+        base.register(Target)
+        base.register(MotorPWM)
+    RuleBase.register(AbsRule)
+
+
 def _target_isinstance(obj, cls):
     if isinstance(obj, Target):
         names = {getattr(t, "__name__", "") for t in sym._unpack_types(cls)}
@@ -267,9 +287,8 @@ def job_constant_pwm():
         now = H.mkq(c, "Time", "t")
         val = c.real("pwm_value")
         tm = TM.Timer(start_time=start, duration=dur)
-        if not c.concrete:
-            c.assume(z3.And(val.term >= -1, val.term <= 1))        # constructor precondition (a duty cycle)
-        rule = construct(O, CP.ConstantPWM, ("C15",), timer=tm, powertrain=Target(time=[H.mkq(c, "Time", "t_old"), now], _classes=("Powertrain",)),
+        c.assume(L.And(L.ge(val, -1), L.le(val, 1)))        # constructor precondition (a duty cycle)
+        rule = construct(O, CP.ConstantPWM, ("C15",), timer=tm, powertrain=PTStandIn(time=[H.mkq(c, "Time", "t_old"), now], elements=()),
                          target_pwm_value=val)
         before = dict(rule.__dict__)
         st, r = H.call(rule.apply)
@@ -528,7 +547,7 @@ SENSORS = {"AbsoluteRotaryEncoder": ("gearpy.sensors.absolute_rotary_encoder", "
            "Amperometer": ("gearpy.sensors.amperometer", "electric_current", "Current")}
 
 
-def job_stop(sensor, opname):
+def job_stop(sensor, opname, second_call=False):
     modname, attr, kind = SENSORS[sensor]
 
     def body(c, O):
@@ -543,6 +562,13 @@ def job_stop(sensor, opname):
         sc = construct(O, SC.StopCondition, ("C16",), sensor=sens, threshold=thr, operator=getattr(OP, opname)())
         st, r = H.call(sens.get_value)
         O.prove("sensor:get_value-is-the-live-attribute-object", st == "ok" and r is reading, props=("C16", "C15"))
+        if second_call:
+            # the condition is checked at every computed instant: an earlier check against another reading must not matter
+            st0, r0 = H.call(sc.check_condition)
+            if st0 == "raise":
+                raise sym.PathEnd()
+            reading = H.mkq(c, kind, "reading_at_the_second_check")
+            setattr(tgt, attr, reading)
         st, r = H.call(sc.check_condition)
         if st == "raise":
             O.fail("check_condition:no-exception", props=("C16",), note=repr(r))
@@ -563,11 +589,14 @@ def job_stop(sensor, opname):
         O.prove("check_condition:same-units=>operator(reading,threshold)-on-SI-magnitudes",
                 z3.Implies(L._b(AU.same_unit(reading.unit, thr.unit)), L.Iff(t, exact)), props=("C16",))
         O.prove("check_condition:reads-the-live-attribute-and-modifies-nothing",
-                tgt.__dict__[attr] is reading and sc._StopCondition__threshold is thr, props=("C16",))
-    return Job(f"control.StopCondition.check_condition[{sensor},{opname}]", body, ("C16", "C15", "C07"),
+                tgt.__dict__[attr] is reading and sc.threshold is thr and sc.sensor is sens, props=("C16",))
+    return Job(f"control.StopCondition.check_condition[{sensor},{opname}{',second-check-with-another-reading' if second_call else ''}]", body, ("C16", "C15", "C07"),
                functions=["gearpy.utils.stop_condition.stop_condition.StopCondition.check_condition",
                           f"gearpy.utils.stop_condition.operator.{opname}.__call__", f"{modname}.{sensor}.get_value"],
                expect_covers=("returns",), meta=dict(family="stop", sensor=sensor, op=opname))
+
+
+_register_stand_ins()
 
 
 def all_jobs(exact_tables=None):
@@ -578,4 +607,5 @@ def all_jobs(exact_tables=None):
     jobs += [job_start_proportional(2, lr, second_call=True) for lr in (False, True)]
     jobs += [job_start_proportional(n, lr) for n in (2, 3, 4, 5, 6) for lr in (False, True)]   # n > 4: thorough tier only
     jobs += [job_stop(sn, op) for sn in SENSORS for op in OPS]
+    jobs += [job_stop(sn, op, second_call=True) for sn in SENSORS for op in OPS]
     return jobs
